@@ -303,8 +303,10 @@ func (g *Global) loadContracts(specDir string) error {
 		if dir == "" {
 			continue
 		}
-		f := filepath.Join(dir, "zz_contracts_verif.go")
-		if _, err := os.Stat(f); err == nil {
+		// zz_contracts_verif.go and any number of zz_contracts_<topic>_verif.go files, in name order
+		fs, _ := filepath.Glob(filepath.Join(dir, "zz_contracts_*verif.go"))
+		sort.Strings(fs)
+		for _, f := range fs {
 			if err := g.C.ParseFile(f, p.Pkg.Path()); err != nil {
 				return err
 			}
